@@ -374,7 +374,7 @@ def bounded_scipy_instance():
     from pb_bss.distribution import complex_circular_symmetric_gaussian as cg, complex_angular_central_gaussian as ca
 
     def make(B):
-        kind = B.choose('kind', ['full', 'diagonal', 'spherical', 'vmf', 'ccsg', 'watson-int', 'bingham-form', 'cacg-int', 'bingham-logpdf', 'bingham-logpdf'])
+        kind = B.choose('kind', ['full', 'diagonal', 'spherical', 'vmf', 'ccsg', 'watson-int', 'bingham-form', 'cacg-int', 'bingham-logpdf', 'bingham-logpdf', 'cacg-scale'])
         D = B.choose('D', [1, 2, 3, 5, 8] if kind in ('full', 'diagonal', 'spherical') else [2, 3, 4, 6])
         lead = B.choose('lead', [(), (2,), (3, 2)])
         seed = B.choose('seed', list(range(1000)))
@@ -452,6 +452,22 @@ def bounded_scipy_instance():
             dens = np.exp(model.log_pdf(z))
             area = 2 * np.pi ** 2       # 2 pi^D / (D-1)!  for D = 2
             res.update(got=np.asarray([np.sum(dens * np.cos(t) * np.sin(t)) * (np.pi / 2 / 4000) * (2 * np.pi) ** 2]), ref=np.asarray([area]))
+        elif kind == 'cacg-scale':
+            # the cACG density does not depend on the scale of the stored covariance: eigenvalues of any magnitude
+            Dd = min(D, 6)
+            A = rng.normal(size=lead + (Dd, Dd)) + 1j * rng.normal(size=lead + (Dd, Dd))
+            V = np.linalg.qr(A)[0]
+            lam = rng.uniform(0.2, 1.0, size=lead + (Dd,))
+            y = rng.normal(size=lead + (N, Dd)) + 1j * rng.normal(size=lead + (N, Dd))
+            c_ = 10.0 ** rng.choice([-20.0, -12.0, -9.0, 0.0, 9.0, 20.0])
+            got = ca.ComplexAngularCentralGaussian(covariance_eigenvectors=V, covariance_eigenvalues=lam * c_).log_pdf(y)
+            z = y / np.linalg.norm(y, axis=-1, keepdims=True)
+            ref = np.empty(lead + (N,))
+            for li in np.ndindex(*lead):
+                Bm = (V[li] * lam[li]) @ V[li].conj().T
+                q = np.real(np.einsum('nd,de,ne->n', z[li].conj(), np.linalg.inv(Bm), z[li]))
+                ref[li] = -Dd * np.log(q) - np.linalg.slogdet(Bm)[1]
+            res.update(got=got, ref=ref)
         elif kind == 'bingham-logpdf':
             # stored parameters: random unitary eigenvectors, distinct eigenvalues in arbitrary (unsorted) order, leading axes;
             # the same object is evaluated three times (the density is a function of the stored parameters only)
